@@ -46,13 +46,13 @@ inline World makeWorld(const Rng& wr, const GenOpts& go) {
 inline Json worldToJson(const World& w) {
     Json a = Json::arr();
     for (auto& r : w.res) { Json j = Json::obj(); j.set("name", r.name); j.set("role", r.role); j.set("enc", r.enc); j.set("bytes", bytesEnc(r.core));
-        if (r.padCount || !r.padExtra.empty()) { Json p = Json::obj(); p.set("at", (long long)r.padAt); p.set("unit", bytesEnc(r.padUnit)); p.set("count", (long long)r.padCount); p.set("extra", bytesEnc(r.padExtra)); j.set("pad", p); }
+        if (r.padCount || !r.padExtra.empty() || r.pad2Count) { Json p = Json::obj(); p.set("at", (long long)r.padAt); p.set("unit", bytesEnc(r.padUnit)); p.set("count", (long long)r.padCount); p.set("extra", bytesEnc(r.padExtra)); if (r.pad2Count) { p.set("at2", (long long)r.pad2At); p.set("count2", (long long)r.pad2Count); } j.set("pad", p); }
         a.push(j); }
     return a;
 }
 inline std::vector<Resource> resourcesFromJson(const Json& a) {
     std::vector<Resource> v; for (auto& j : a.a) { Resource r; r.name = j.gets("name"); r.role = j.gets("role"); r.enc = j.gets("enc"); r.core = bytesDec(j.gets("bytes"));
-        if (j.has("pad")) { const Json& p = j.at("pad"); r.padAt = std::min((size_t)p.geti("at"), r.core.size()); r.padUnit = bytesDec(p.gets("unit")); r.padCount = (size_t)p.geti("count"); r.padExtra = bytesDec(p.gets("extra")); }
+        if (j.has("pad")) { const Json& p = j.at("pad"); r.padAt = std::min((size_t)p.geti("at"), r.core.size()); r.padUnit = bytesDec(p.gets("unit")); r.padCount = (size_t)p.geti("count"); r.padExtra = bytesDec(p.gets("extra")); r.pad2At = (size_t)p.geti("at2"); r.pad2Count = (size_t)p.geti("count2"); }
         r.expand(); v.push_back(r); } return v;
 }
 
